@@ -29,7 +29,7 @@ ASSUMPTIONS = [
     "pre-emption granularity is one source line of more_executors/_impl plus every primitive operation",
     "several threads calling shutdown() and callables that wait on work only their own thread can run are user errors and are not generated",
     "blocking-mode throttle with count 0 is not generated here (owned by C07/C11)",
-    "four recorded, unrepaired deadlock shapes (known_findings.json: K2 gate / K2 retry-lock / K2N / K3) are recognised by the structure of the end "
+    "three recorded, unrepaired deadlock shapes (known_findings.json: K2 gate / K2N / K3) are recognised by the structure of the end "
     "state and excluded from the search by signature; the evidence counts them",
 ]
 
